@@ -10,7 +10,7 @@
    typed decode  =  generic strict decode ; canonical form ; schema conformance with
    unknown-field rejection ; validity rules.  No proofs here. *)
 From Coq Require Import List NArith ZArith Bool String Ascii.
-Require Import V.base.Bytes V.model.Cbor.
+Require Import V.base.Bytes V.gen.SerdeConsts V.model.Cbor.
 Import ListNotations.
 Local Open Scope N_scope.
 
@@ -374,14 +374,14 @@ Definition s_natbytes (nm : bytes) : schema := SStruct [ (nm, (false, SBytes)) ]
 
 Definition schema_of (t : ty) : schema :=
   match t with
-  | TThreshold => STagged 5053 (SStruct [ (k_threshold, (false, SId)); (k_shareholders, (false, s_idset)) ])
-  | TUnanimity => STagged 5054 (SStruct [ (k_shareholders, (false, s_idset)) ])
-  | TCnf => STagged 5051 (SStruct [ (k_shareholders, (false, s_idset));
+  | TThreshold => STagged tag_ThresholdAccessStructureTag (SStruct [ (k_threshold, (false, SId)); (k_shareholders, (false, s_idset)) ])
+  | TUnanimity => STagged tag_UnanimityAccessStructureTag (SStruct [ (k_shareholders, (false, s_idset)) ])
+  | TCnf => STagged tag_CNFAccessStructureTag (SStruct [ (k_shareholders, (false, s_idset));
                                      (k_maximal_unqualified_sets, (false, SList s_idset)) ])
   | THierarchical =>
-      STagged 5052 (SStruct [ (k_levels,
+      STagged tag_HierarchicalConjunctiveThresholdAccessStructureTag (SStruct [ (k_levels,
         (false, SList (SStruct [ (k_threshold, (false, SInt)); (k_parties, (false, SList SId)) ]))) ])
-  | TBoolexpr => STagged 5050 (SStruct [ (k_root, (false, SNode)); (k_shareholders, (false, s_idset)) ])
+  | TBoolexpr => STagged tag_ThresholdGateAccessStructureTag (SStruct [ (k_root, (false, SNode)); (k_shareholders, (false, s_idset)) ])
   | TMsp _ => s_msp
   | TKwShare _ => s_share s_scalar
   | TLifted _ => s_share s_point
